@@ -2,6 +2,7 @@
 from __future__ import annotations
 
 import contextlib
+import time
 import random
 import socket
 import ssl
@@ -44,22 +45,30 @@ class Session:
         self.client = Client("server.example.com", debug=True) if self.debug \
             else Client("server.example.com")
         self.connect_count = 0
+        self.seconds_per_recv = 0.0   # virtual seconds that pass with every recv()
+        self.handshake_seconds = 0.0  # virtual seconds the TLS handshake takes
 
     # -- patched factories
     def _create_connection(self, addr, *a, **kw):
         self.connect_count += 1
         self.sock = ms.ScriptedSocket(self.server, self.wire, self.seg)
+        self.sock.seconds_per_recv = self.seconds_per_recv
         self.wire.log("connect", repr(addr).encode())
         return self.sock
 
     def _create_default_context(self, *a, **kw):
-        return ms.FakeTLSContext(self.tls_outcome)
+        ctx = ms.FakeTLSContext(self.tls_outcome)
+        ctx.handshake_seconds = self.handshake_seconds
+        return ctx
 
     def call(self, name, *args, **kw):
         """-> ('ret', value) | ('exc', type name, message) | ('hang', where)"""
         oc, oc2 = socket.create_connection, ssl.create_default_context
         socket.create_connection = self._create_connection
         ssl.create_default_context = self._create_default_context
+        om, ot = time.monotonic, time.time
+        time.monotonic = lambda: om() + ms.VCLOCK["offset"]
+        time.time = lambda: ot() + ms.VCLOCK["offset"]
         try:
             fn = getattr(self.client, name)
             if self.debug:
@@ -69,6 +78,7 @@ class Session:
                 kind, val, steps = core.guarded(fn, STEP_LIMIT, *args, **kw)
         finally:
             socket.create_connection, ssl.create_default_context = oc, oc2
+            time.monotonic, time.time = om, ot
         if kind == "ret":
             return ("ret", val)
         if kind == "exc":
